@@ -259,6 +259,33 @@ AGENT_CHECKS = {
                         "module of a tuple = relation-level module if set, else type-level module",
                         "the outcome under 'late' partial failure depends on goroutine scheduling; the oracle accepts both outcomes when the caller is granted"],
     },
+    "C30": {
+        "pkg": "p30",
+        "runs": [_r("TestC30", 2000, 100000)],
+        "rule": "shared generator G (model + valid tuples + left-overs); one focus (object, relation), preferably with >= 2 operator levels, gets extra valid "
+                "tuples and extra tuples NOT valid for the model on exactly the relations its Expand reads (itself, its TTU tuplesets); 2-5 Expand queries "
+                "with contextual tuples on the read relations and elsewhere. Non-trivial: the expanded rewrite has >= 2 operator levels and a direct leaf that "
+                "must list >= 2 users while the store holds an invalid tuple on that very object#relation. Distinct: hash of the case JSON.",
+        "level_text": "exploration: every returned tree is compared node by node with the relation's rewrite and with the R-val-valid stored + contextual tuples",
+        "technique": "property-based testing (rapid), model-based oracle (rewrite mirror + R-val tuple filter)",
+        "assumptions": ["R-val (refsem.ValidForRead) is the specification of 'valid for the model'",
+                        "users of VALID conditional tuples are neither required nor forbidden in leaves (documentation silent)",
+                        "order of a TTU leaf's computed list is not asserted"],
+    },
+    "C32": {
+        "pkg": "p32",
+        "runs": [_r("TestC32", 800, 40000)],
+        "rule": "shared generator G, some condition parameters renamed to subject_/resource_/action_<p> so AuthZEN properties matter; a batch of 2-6 AuthZEN "
+                "items derived from native requests with each prefixed context key placed in the request context, a properties object, or both; top-level "
+                "defaults with per-item inheritance or override; every item as a single Evaluation and the batch with no options, execute_all, "
+                "deny_on_first_deny, permit_on_first_permit; 1-4 subject/resource/action searches. Non-trivial: native decisions of the batch are mixed AND "
+                "some search returns a non-empty strict subset of its candidates. Distinct: hash of the case JSON.",
+        "level_text": "exploration: differential against Server.Check / ListUsers / ListObjects on the same server and store for the request obtained with the "
+                      "documented mapping, plus native Check against R-sem",
+        "technique": "property-based testing (rapid), differential (AuthZEN vs native API) + reference semantics for Check",
+        "assumptions": ["the mapping in docs/authzen and the authzen proto descriptions is the specification",
+                        "userset subjects and contextual tuples are not expressible in AuthZEN and outside the case space"],
+    },
     "C31": {
         "pkg": "p31",
         "runs": [_r("TestC31", 500, 30000, qt=1500)],
